@@ -75,6 +75,41 @@ CLAIMED = {
         design="7 C09", technique="Lean 4 proof (inductive invariant of an interleaving semantics over all schedules) + differential correspondence under a schedule-controlled transport",
         note=NOTE_COMMON + "Scope stated in the theorems: buffered sends to the sleeping woken node, one listener, writes succeed "
              "(failures are C08). asyncio's cooperative scheduling (atomicity between awaits) is the modelling assumption."),
+    "C10": dict(
+        text="Lean theorems all_missing_paths_wrapped (from the generated chains: from 2.0 on every handler that can fail with a "
+             "missing node/child runs inside the decorator, before 2.0 none), request_when_unmarked, failed_request_not_recorded, "
+             "silent_when_marked, presentation_rearms (with the no-duplicate-marker invariant proved along all histories), "
+             "independent (a message from one node never touches another node's marker, for every version and fault schedule, via "
+             "the generic traversal); tied to the real Gateway by histories over known/unknown nodes with write faults on the request.",
+        design="7 C10", technique="Lean 4 proof (exact decorator semantics + frame invariants by generic traversal) + generated chains + differential correspondence",
+        note=NOTE_COMMON + "The history-level 'at most one request per episode' is composed from these step theorems by the oracle of "
+             "the correspondence run, not yet by a single Lean induction; 'never before 2.0' is checked on the real code only."),
+    "C11": dict(
+        text="Lean theorems nextId_fresh / id_in_range_and_fresh (the id is above every registered id, 1..254), id_handed_out "
+             "(placeholder registered and the answer addressed like the request with the id as payload), registered_before_written "
+             "(also when the write fails), too_many / too_many_only_when_full, id_request_dispatch (generated chains, all versions), "
+             "keys_monotone_history and never_handed_out_twice (no operation ever removes a node, by the generic traversal and "
+             "induction over histories); tied to the real Gateway over every subset of {0,1,2,253,254,255} and random registries.",
+        design="7 C11", technique="Lean 4 proof (freshness from max, monotone registry invariant over histories) + generated constants/chains + differential correspondence",
+        note=NOTE_COMMON + "The lower bound 1 <= id assumes registered ids are not negative (0-255 from the wire and from persistence)."),
+    "C15": dict(
+        text="Lean model of the file-system operation sequence of save with torn writes; crash_states_are_prefixes, "
+             "every_prefix_is_a_crash_state, crash_load_classes; not_crash_safe PROVES THE PROPERTY FALSE of today's operation "
+             "sequence (the recorded known finding truncate-in-place), atomic_if_renamed proves it for temp-file+rename. The real "
+             "save is instrumented at the file opener, its logged operations must equal the model's, and every crash state is "
+             "materialised and loaded by the real load; only crash states of the known class are tolerated (KNOWN-FINDING).",
+        design="7 C15", technique="Lean 4 proof (prefix closure over crash points; refutation with witness) + operation-sequence correspondence + crash-state enumeration",
+        note=NOTE_COMMON + "Known finding: the property does not hold on the unchanged tree (see known-findings.txt). Not modelled: "
+             "OS page cache / fsync ordering, executor threads."),
+    "C16": dict(
+        text="Lean small-step model of the gateway context (load, start, connect, body, disconnect, stop) and the saver task with "
+             "CPython cancellation semantics and the generated suppress/except clauses and SAVE_INTERVAL; exit_clean, "
+             "connect_failure_leaves_nothing, load_failure_starts_nothing, cadence, enter_loads_then_saves, exit_completes for all "
+             "fault combinations and ALL schedules; tied to the real Gateway with gated file operations (exit placed before the saver "
+             "starts, inside each file operation, during the sleep), virtual time, and every built-in transport kind.",
+        design="7 C16", technique="Lean 4 proof (invariants of a small-step lifecycle model over all schedules and fault combinations) + generated constants/clauses + gated differential correspondence",
+        note=NOTE_COMMON + "Partial: an executor thread still writing after its coroutine was cancelled cannot be exhibited by the model; "
+             "a failing *periodic* save (outside the property's fault positions) is reported as an observation only."),
 }
 
 PENDING_REASON = "check not built yet in this round (model and theorems in progress); see DESIGN.md section 7"
